@@ -57,6 +57,8 @@ async def _run(rng, desc):
             if isinstance(wait, (list, tuple)):
                 wait = wait[i % len(wait)]          # a different lease delay on every connection
             skw['lease_publisher'] = ScriptedLeasePublisher([(wait, n_, ttl_)])
+            if desc.get('two_way_lease'):
+                skw['honor_lease'] = True       # the server's own requests wait for the client's LEASE
         server = RSocketServer(link.transports['s'], handler_factory=lambda: h, fragment_size_bytes=desc.get('frag_s'), **skw)
         c = {'link': link, 'server': server, 'handler': h, 'index': i}
         conns.append(c)
@@ -71,8 +73,13 @@ async def _run(rng, desc):
             yield c['link'].transports['c']
 
     hc = ScriptedHandler(world, 'c', driver)
+    ckw = {}
+    if desc.get('lease') and desc.get('two_way_lease'):
+        # the client grants leases too: its publisher has to be subscribed again for every new connection
+        from .c14 import ScriptedLeasePublisher
+        ckw['lease_publisher'] = ScriptedLeasePublisher([(desc['two_way_lease'], 100, 60000)])
     client = RSocketClient(provider(), handler_factory=lambda: hc, keep_alive_period=timedelta(seconds=P),
-                           max_lifetime_period=timedelta(seconds=L), honor_lease=bool(desc.get('lease')))
+                           max_lifetime_period=timedelta(seconds=L), honor_lease=bool(desc.get('lease')), **ckw)
     where = desc['reconnect_from']
 
     async def on_close_hook(rs):
@@ -205,8 +212,24 @@ async def _run(rng, desc):
                 probe = ('pending', None, i)
             except Exception as e:
                 probe = ('exception', repr(e)[:80], i)
+        server_probe = None
+        if len(conns) > nconn and desc.get('lease') and desc.get('two_way_lease'):
+            # a request of the NEW server's application: it needs the client's LEASE on the new connection
+            i = next_iid()
+            p = make_payload(i, DIR_REQUEST, 0, 16, 0)
+            world.specs[i] = {'iid': i, 'model': 'rr', 'side': 's', 'resp': {'size': (7, 2), 'outcome': 'ok'}}
+            world.inter[i] = {}
+            world.log('server_probe_call', iid=i)
+            try:
+                fut = conns[-1]['server'].request_response(p)
+                res = await asyncio.wait_for(asyncio.shield(fut), 30.0)
+                server_probe = ('result', pkey(res) == world.inter[i].get('emitted', {}).get(DIR_RESPONSE, [None])[0], i)
+            except asyncio.TimeoutError:
+                server_probe = ('pending', None, i)
+            except Exception as e:
+                server_probe = ('exception', repr(e)[:80], i)
         await asyncio.sleep(0.5)
-        rounds.append({'cause': cause, 'old': cur, 'new': conns[-1] if len(conns) > nconn else None, 'pending': pending,
+        rounds.append({'cause': cause, 'server_probe': server_probe, 'old': cur, 'new': conns[-1] if len(conns) > nconn else None, 'pending': pending,
                        'during': [(k_, i_, (o_.done() if callable(getattr(o_, 'done', None)) else None)) for k_, i_, o_ in during],
                        't_cause': t_cause, 't_new': t_new, 'probe': probe,
                        'old_close_calls': cur['link'].close_calls.get('c', 0)})
@@ -293,6 +316,12 @@ def judge(world, rounds, conns, desc):
             bad('request-after-reconnect-not-served', rnd, probe=pr and list(pr))
         else:
             st['post_reconnect_requests_served'] += 1
+        sp = r.get('server_probe')
+        if sp is not None:
+            st['post_reconnect_server_requests_judged'] = st.get('post_reconnect_server_requests_judged', 0) + 1
+            if sp[0] != 'result' or sp[1] is not True:
+                bad('server-request-after-reconnect-not-served', rnd, probe=list(sp),
+                    leases_sent_by_client_on_new_transport=sum(1 for e in sent if e['f']['type'] == 'LEASE'))
     return wit, st
 
 
@@ -309,8 +338,9 @@ def gen_case(rng):
     if rng.random() < 0.2:
         # a lease-honouring client; every server grants a generous lease after its own delay
         lease = [[rng.choice([0.0, 0.3, 1.0, 2.0]) for _ in range(4)], 100, 60000]
+    two_way = rng.choice([None, 0.0, 0.2]) if lease else None
     return {'link': rng.choice(['bytes', 'messages']), 'P': 0.5, 'L': 2.0, 'lease': lease, 'frag_s': rng.choice([None, 64, 64]),
-            'on_close_delay': rng.choice([0, 0, 0.3]),
+            'on_close_delay': rng.choice([0, 0, 0.3]), 'two_way_lease': two_way,
             'connect': rng.choice([('none',), ('none',), ('ticks', 1), ('ticks', 3), ('virtual', 0.01)]),
             'provider_wait': rng.choice([('none',), ('none',), ('ticks', 1), ('ticks', 4), ('virtual', 0.05)]),
             'reconnect_from': rng.choice(['on_close', 'on_keepalive_timeout', 'task']), 'rounds': rounds}
